@@ -20,6 +20,8 @@ JOBS = {
     # several bracketed comments on one line, code between them, and a line made of comments only
     "J10": ["G0 X0 Y0 (rapid to origin) Z5 (clearance plane)", "(op 10) G1 Z-1 F100 (plunge)", "(setup)(sheet 2)", "G1 X1 (a) Y2 (b) ; c (d)",
             "G1 X9 ;@ seam", "G1 X8 ; see ;@pause"],
+    # a host-command line (ignored by the sender) in the middle of the job
+    "J11": ["G1 X1", ";@notify layer done", "G1 X2", "; plain comment", ";@unknown", "G1 X3"],
     "J8": ["G1 Z0.2", "G1 X1 E1", "G1 Z0.6", "G0 X5", "G1 Z0.2", "G1 X6 E2", "G1 Z0.4", "G1 X7 E3"],
 }
 COMMENT_RE = re.compile(r"\([^()]*\)|;.*")
@@ -302,6 +304,10 @@ def plan(tier):
             base = {"job": "J8", "dialect": "D", "greeting": None, "eager": False, "corrupt": corrupt}
             items.append(({**base, "line_points": True}, 0, None))
         for dialect in ("A", "B"):
+            for corrupt in ((), (1,), (2,)):
+                base = {"job": "J11", "dialect": dialect, "greeting": None, "eager": False, "corrupt": corrupt}
+                items.append(({**base, "line_points": True}, 0, None))
+        for dialect in ("A", "B"):
             for corrupt in ((), (1,)):
                 base = {"job": "J10", "dialect": dialect, "greeting": None, "eager": False, "corrupt": corrupt}
                 items.append(({**base, "line_points": True}, 0, None))
@@ -340,11 +346,11 @@ def plan(tier):
                         items.append(({**base, "line_points": True}, 0, None))
                         if len(corrupt) <= 1 and not eager:
                             items.append(({**base, "line_points": False}, 1, None))
-        for job in ("J3", "J4", "J2", "J8", "J9", "J10"):
+        for job in ("J3", "J4", "J2", "J8", "J9", "J10", "J11"):
             for dialect in ("A", "B", "C"):
                 for greeting in (None, "start"):
                     for eager in (False, True):
-                        for corrupt in fault_patterns(8 if job not in ("J2", "J9", "J10") else 4, 3 if job == "J3" else (1 if job in ("J8", "J9", "J10") else 2)):
+                        for corrupt in fault_patterns(8 if job not in ("J2", "J9", "J10", "J11") else 4, 3 if job == "J3" else (1 if job in ("J8", "J9", "J10", "J11") else 2)):
                             base = {"job": job, "dialect": dialect, "greeting": greeting, "eager": eager, "corrupt": corrupt}
                             items.append(({**base, "line_points": True}, 0, None))
                             if job == "J3" and greeting is None and corrupt in ((), (1,), (2,)) and dialect != "C":
